@@ -47,7 +47,9 @@ def main(argv=None):
             ctx.informational["selftest"] = run_selftest(prop)
         from .report import finish
         cmd = f"./check {prop} --tier {a.tier}"
-        return finish(ctx, mod.CLAIM, mod.EXPLANATION, list(getattr(mod, "ASSUMPTIONS", [])), TRUSTED_BASE, cmd)
+        ex = getattr(mod, "EXHAUSTIVE", False)
+        return finish(ctx, mod.CLAIM, mod.EXPLANATION, list(getattr(mod, "ASSUMPTIONS", [])), TRUSTED_BASE, cmd,
+                      exhaustive=(ex is True) or (ex == "thorough" and a.tier == "thorough"))
     except AnalysisError as e:
         print(f"ANALYSIS-ERROR property={prop} {e}")
         return 2
